@@ -111,7 +111,15 @@ type Obs struct {
 	Reports []g.Report
 	RecSt   []g.CoreState
 	RecOwn  []int
+	// after a second RunCycle (only when requested)
+	Core2  []g.Instruction
+	Queue2 []g.Address
 }
+
+// TwoSteps makes Exec run a second cycle on the same simulator: the second
+// step starts from a state that has a history (whatever the first step left
+// in the simulator besides core and queue).
+var TwoSteps bool
 
 // Exec runs the step on gmars through the public API.
 func Exec(st *State, listen bool) (o Obs) {
@@ -153,6 +161,14 @@ func Exec(st *State, listen bool) (o Obs) {
 	o.Alive = w.Alive()
 	o.Living = sim.WarriorLivingCount()
 	o.Cycles = sim.CycleCount()
+	if TwoSteps && !listen && len(o.Queue) > 0 {
+		sim.RunCycle()
+		o.Core2 = make([]g.Instruction, st.M)
+		for a := uint64(0); a < st.M; a++ {
+			o.Core2[a] = sim.GetMem(g.Address(a))
+		}
+		o.Queue2 = w.Queue()
+	}
 	if listen {
 		o.Reports = rc.reps
 		o.RecSt = make([]g.CoreState, st.M)
@@ -238,6 +254,33 @@ func (c *Checker) Check(st *State) {
 			}
 		}
 		c.vacuity01(st, &out, rc)
+		if o.Core2 != nil && nq > 0 {
+			// second step: pop the front of the reference queue, run the reference step again
+			rq := append([]uint64{}, expq[:nq]...)
+			pc2 := rq[0]
+			rq = rq[1:]
+			out2 := ref.Step(rc, M, st.R, st.W, pc2)
+			for _, p := range out2.Push {
+				if uint64(len(rq)) < st.P {
+					rq = append(rq, p)
+				}
+			}
+			rep.Traces++
+			rep.Transitions++
+			ok := len(rq) == len(o.Queue2)
+			for a := range rc {
+				ok = ok && rc[a] == o.Core2[a]
+			}
+			if ok {
+				for i := range rq {
+					ok = ok && rq[i] == uint64(o.Queue2[i])
+				}
+			}
+			if !ok && rep.Hit("C01", "second-step") {
+				rep.Add("C01", "second-step", st.String(), fmt.Sprintf("after a second cycle on the same simulator: %s; queue gmars=%v reference=%v", coreDiff(o.Core2, rc), o.Queue2, rq))
+			}
+			rep.Count("c01:second-steps")
+		}
 	}
 	if c.Props.C11 {
 		wl, rl := st.W/2, st.R/2
